@@ -7,6 +7,7 @@ import (
 	"net/netip"
 	"strings"
 	"sync"
+	"time"
 
 	"github.com/fxamacker/cbor/v2"
 
@@ -322,6 +323,80 @@ func oneRun(res *core.Result, pool *idPool, r *rand.Rand, rc runCfg, choices []i
 	return branch, true
 }
 
+// multiRound: a mesh lives through several announcement rounds, and between rounds things change the way they do
+// in a running network: measured link latencies move (the delay every relay signs) and new routers join.
+// (Links that go down and come back with other labels are not part of it: the statement quantifies over fixed
+// topologies, and on the pinned tree third routers keep routes with the old labels - see DESIGN.md 9.6.) After every round (everybody announced, network drained) the reach clauses must hold for the topology
+// as it is then - in particular following the forward labels of every route over the links that exist now.
+func multiRound(res *core.Result, pool *idPool, r *rand.Rand, t0 *vmesh.Topology, labels vmesh.LabelMode, rounds int) {
+	t := &vmesh.Topology{Name: t0.Name + "+changes", N: t0.N, Edges: append([][2]int(nil), t0.Edges...)}
+	ids := pool.get(t.N + 2)
+	ms, err := vmesh.Build(r, t, ids[:t.N], vmesh.BuildOpts{Labels: labels})
+	if err != nil {
+		res.Inconcl("mesh build: %v", err)
+		return
+	}
+	desc := fmt.Sprintf("%s labels=%d rounds=%d", t0.Canon(), labels, rounds)
+	var history []string
+	wit := func() map[string]any {
+		return map[string]any{"run": desc, "history": history, "case_id": "multi-round/" + desc}
+	}
+	nextLabel := m.SwitchLabel(20000)
+	joined := 0
+	for round := 0; round < rounds; round++ {
+		if round > 0 {
+			// latencies: each link gets a new value with probability 1/2; one link moves monotonically down and
+			// then up again (a route that keeps getting better, then worse)
+			for k, e := range t.Edges {
+				if k == 0 {
+					lat := uint16(max(5, 50-10*round))
+					if round == rounds-1 {
+						lat = 60
+					}
+					ms.SetLatency(e[0], e[1], lat, lat)
+					history = append(history, fmt.Sprintf("round %d: latency %d-%d = %d", round+1, e[0], e[1], lat))
+				} else if r.IntN(2) == 0 {
+					a, b := uint16(1+r.IntN(80)), uint16(1+r.IntN(80))
+					ms.SetLatency(e[0], e[1], a, b)
+				}
+			}
+			// a router joins
+			if round >= 2 && joined < 2 && r.IntN(2) == 0 {
+				at := r.IntN(t.N)
+				if _, err := ms.AddNode(ids[t0.N+joined], vmesh.NodeOpts{}); err != nil {
+					res.Inconcl("join: %v", err)
+					return
+				}
+				nextLabel += 2
+				if err := ms.Connect(at, t.N, nextLabel, nextLabel+1); err != nil {
+					res.Inconcl("join connect: %v", err)
+					return
+				}
+				t.Edges = append(t.Edges, [2]int{at, t.N})
+				history = append(history, fmt.Sprintf("round %d: node %d joined at node %d", round+1, t.N, at))
+				t.N++
+				joined++
+			}
+			time.Sleep(2 * time.Millisecond) // a later announcement time
+		}
+		if err := ms.Converge(r, round%2 == 1); err != nil {
+			res.Violate("flooding-does-not-terminate", fmt.Sprintf("%s: round %d: %v", desc, round+1, err), wit())
+			return
+		}
+		if len(ms.Panics) > 0 {
+			res.Violate("handler-panic", fmt.Sprintf("%s: round %d: %v", desc, round+1, ms.Panics[0]), wit())
+			return
+		}
+		if sig, msg, _ := checkReach(ms, t); sig != "" {
+			res.Violate(sig+":after-changes", fmt.Sprintf("%s: after round %d (%s): %s", desc, round+1, strings.Join(history, "; "), msg), wit())
+			return
+		}
+		res.Count("multi_round_rounds_checked", 1)
+	}
+	res.Count("multi_round_runs", 1)
+	res.Case("multi-round/"+desc+"/"+strings.Join(history, ";"), true)
+}
+
 // dfs explores all delivery orders of a tiny mesh up to a schedule budget.
 func dfs(res *core.Result, pool *idPool, r *rand.Rand, rc runCfg, budget int) {
 	rc.order = "dfs"
@@ -479,6 +554,15 @@ func run(c *core.Ctx) {
 		pool := &idPool{r: core.RNG(fmt.Sprintf("c09/ids/%d", w))}
 		for i := w; i < len(jobs); i += W {
 			oneRun(res, pool, r, jobs[i].rc, nil)
+		}
+	})
+	// meshes that live through several rounds with changes in between
+	mr := []*vmesh.Topology{vmesh.Line(3), vmesh.Line(5), vmesh.Ring(4), vmesh.Star(4), vmesh.Tree(7), vmesh.Grid(2, 3), vmesh.Line(4), vmesh.Ring(6)}
+	parallel(len(mr), func(w int) {
+		r := core.RNG(fmt.Sprintf("c09/multiround/%d", w))
+		pool := &idPool{r: core.RNG(fmt.Sprintf("c09/mrids/%d", w))}
+		for i := 0; i < c.Q(2, 20); i++ {
+			multiRound(res, pool, r, mr[w], vmesh.LabelMode((w+i)%3), 5+i%2)
 		}
 	})
 	// the largest announcements a frame can carry
